@@ -29,7 +29,8 @@ def bfs(initial, alphabet, step, canon, check_state=None, check_transition=None,
     """
     initial            live object in its initial state (never mutated by the search: only copies are stepped)
     alphabet           list of (name, op) ; simplest first
-    step(obj, op)      performs the call on obj, returns a JSON-able/hashable outcome summary (or raises HarnessError)
+    step(obj, op)      performs the call on obj, returns a JSON-able/hashable outcome summary; an operation that produces a
+                       new object returns ("__replace__", (new_obj, outcome))
     canon(obj)         canonical key of the object's state
     check_state(obj, hist)                -> list of violations
     check_transition(src_hist, name, op, outcome, obj_after) -> list of violations
@@ -39,7 +40,7 @@ def bfs(initial, alphabet, step, canon, check_state=None, check_transition=None,
     g.states[k0] = {"hist": [], "depth": 0}
     live = {k0: initial}
     if check_state:
-        g.violations += check_state(initial, [])
+        g.violations += check_state(snapshot(initial), [])  # on a copy: a state check may itself call the object
     frontier = collections.deque([k0])
     while frontier:
         k = frontier.popleft()
@@ -53,6 +54,9 @@ def bfs(initial, alphabet, step, canon, check_state=None, check_transition=None,
                 why = explain(live[k], obj) if explain else ""
                 raise RuntimeError(f"snapshot is not faithful: fingerprint changed by deepcopy after history {info['hist']} {why}")
             outcome = step(obj, op)
+            if isinstance(outcome, tuple) and len(outcome) == 2 and outcome[0] == "__replace__":
+                # the operation yields a new object (e.g. a model loaded from a document): it becomes the state's object
+                obj, outcome = outcome[1]
             k2 = canon(obj)
             hist2 = info["hist"] + [name]
             g.edges.append((k, name, k2, outcome))
@@ -64,7 +68,7 @@ def bfs(initial, alphabet, step, canon, check_state=None, check_transition=None,
                 g.depth_reached = max(g.depth_reached, info["depth"] + 1)
                 live[k2] = obj
                 if check_state:
-                    g.violations += check_state(obj, hist2)
+                    g.violations += check_state(snapshot(obj), hist2)
                 if len(g.states) < max_states:
                     frontier.append(k2)
     expanded_all = all(s["depth"] < max_depth for s in g.states.values()) and len(g.states) < max_states
